@@ -347,6 +347,11 @@ def _place(fdtdx, case, rng, r):
         shape, sym = sc["shape"], tuple(sc["symmetry"])
         boxes = {o["name"]: o["box"] for o in sc["objects"]}
         exp = expect(shape, sym, boxes)
+        if exp is not None and exp["reduced"] == [1, 1, 1]:
+            # unrelated to this property: a one-cell domain makes array allocation fail (StopIteration in
+            # create_named_sharded_matrix), so such scenes cannot be observed through place_objects
+            r.branch("skipped:single-cell-domain")
+            continue
         rels = sorted({relation(b[a][0], b[a][1], shape[a], sym[a]) for b in boxes.values() for a in range(3)} - {"nosym"})
         par = "".join("e" if n % 2 == 0 and n >= 2 else "o" for n in shape)
         sig = f"place|{sc['grid_kind']}|{sym}|{par}|{','.join(rels)}" if any(sym) else None
